@@ -207,6 +207,10 @@ def parseStep (nnc : Bool) (dimOf : Nat → Nat) (ts : List String) : Option Ste
         some (.affinePreimage s (tokNat (args.getD 1 "0")) e (tokInt (args.getD 2 "1")))
       | "gen_affine_image" => let (e, _) := parseExpr d (args.drop 4)
         some (.generalizedAffineImage s (tokNat (args.getD 1 "0")) (parseRel (args.getD 2 "=")) e (tokInt (args.getD 3 "1")))
+      | "bounded_affine_image" =>
+        let (lb, r1) := parseExpr d (args.drop 3)
+        let (ub, _) := parseExpr d r1
+        some (.boundedAffineImage s (tokNat (args.getD 1 "0")) lb ub (tokInt (args.getD 2 "1")))
       | "embed" => some (.embed s (tokNat (args.getD 1 "0")))
       | "project" => some (.project s (tokNat (args.getD 1 "0")))
       | "remove" => some (.removeDims s (natList (args.drop 2)))
@@ -279,6 +283,7 @@ def refStep (nnc : Bool) (rw : RWorld) (pre : Nat → FPoly) (op : Op) : RWorld 
   | .affineImage s v e den => (rw.set s ((rw s).map (·.affineImage v e den)), none)
   | .affinePreimage s v e den => (rw.set s ((rw s).map (·.affinePreimage v e den)), none)
   | .generalizedAffineImage s v r e den => (rw.set s ((rw s).map (·.genAffineImage v r e den)), none)
+  | .boundedAffineImage s v lb ub den => (rw.set s ((rw s).map (·.boundedAffineImage v lb ub den)), none)
   | .embed s m => (rw.set s ((rw s).map (·.addDimsEmbed m)), none)
   | .project s m => (rw.set s ((rw s).map (·.addDimsProject m)), none)
   | .removeDims s vars => (rw.set s ((rw s).map (·.removeDims vars)), none)
